@@ -136,6 +136,12 @@ func (g *genState) genConc(p *Plan) {
 			ctrUsed[c.ID], podOfCtr[c.Pod] = true, true
 		case 5:
 			c := pickFree(stopped)
+			if nc := pickFree(created); nc != nil && (c == nil || r.Chance(0.4)) {
+				// created, never started: removed without a stop event, the one
+				// lifecycle request that pushes updates to the runtime by itself
+				c = nc
+				op.Ev = "never-started"
+			}
 			if c == nil {
 				continue
 			}
@@ -172,6 +178,14 @@ func (g *genState) genConc(p *Plan) {
 			}
 			haveCfg = true
 			op.Kind, op.Cfg = "reconfigure", g.genReconfigure(p.Cfg)
+			if op.Cfg.Invalid == "" && r.Chance(0.35) {
+				// an update the policy rejects takes the lock twice in effect
+				// (apply, then roll back): more of those than in E1 histories
+				c := *op.Cfg
+				c.Invalid = verifrt.Pick(r, []string{"reserved-outside-available", "unsatisfiable"})
+				applyInvalid(&c, g.m)
+				op.Cfg = &c
+			}
 		case 9:
 			if haveSync {
 				continue
